@@ -352,11 +352,14 @@ void World::check_live(const Node &doc) {
     std::map<std::string, const Node *> idx;
     index_records(doc, idx);
     int checked = 0;
-    for (auto it = live.begin(); it != live.end();) {
-        Kept &k = it->second;
+    for (auto it = live.begin(); it != live.end();) { if (idx.find(it->second.id) == idx.end()) it = live.erase(it); else ++it; }     // entity is gone: not a long-lived handle any more
+    // at most ten handles per observation, starting at a position that moves with the operation index so that every handle gets its turn
+    std::vector<Kept *> order; for (auto &kv : live) order.push_back(&kv.second);
+    size_t start = order.empty() ? 0 : ((size_t) (cur < 0 ? 0 : cur) * 7) % order.size();
+    for (size_t oi = 0; oi < order.size(); oi++) {
+        Kept &k = *order[(start + oi) % order.size()];
         auto f = idx.find(k.id);
-        if (f == idx.end()) { it = live.erase(it); continue; }     // entity is gone: not a long-lived handle any more
-        if (checked >= 10) { ++it; continue; }
+        if (checked >= 10) break;
         Node n;
         try {
             switch (k.kind) {
@@ -365,7 +368,7 @@ void World::check_live(const Node &doc) {
                 case 6: n = observe_source(k.source); break; case 7: n = observe_section(k.section); break; case 8: n = observe_property(k.property); break;
                 default: break;
             }
-        } catch (const std::exception &) { ++it; continue; }
+        } catch (const std::exception &) { continue; }
         checked++;
         cnt.inc("live_handles.checked");
         std::string where;
@@ -377,7 +380,67 @@ void World::check_live(const Node &doc) {
             arg_class = ac;
             return;
         }
-        ++it;
+        // descriptor handles obtained earlier from a long-lived array handle must show what the array's descriptors show now
+        if (k.kind == 1) {
+            const Node *dl = f->second->find("dims");
+            size_t nd = dl && dl->val.empty() ? dl->kids.size() : 0;
+            if (k.dims.size() > nd) k.dims.clear();              // the descriptors were deleted meanwhile
+            for (size_t i = 0; i < k.dims.size(); i++) {
+                Node hn;
+                try { hn = observe_dimension(k.dims[i]); } catch (const std::exception &) { continue; }
+                cnt.inc("live_handles.dimension_checked");
+                if (!subset_equal(hn, dl->kids[i], where)) {
+                    std::string ac = arg_class; arg_class += ",live-kind=10";
+                    fail(lane_prop == "C13" ? "C13.faithful-live" : "C02.live-handle", "a dimension descriptor handle obtained earlier in this session (array " + f->second->field("name") + ", dimension " + std::to_string(i + 1) + ") shows something else than a fresh lookup at " + where);
+                    arg_class = ac; return;
+                }
+            }
+            if (k.dims.size() < nd) { try { std::vector<nix::Dimension> all = k.array.dimensions(); for (size_t i = k.dims.size(); i < all.size() && i < nd; i++) k.dims.push_back(all[i]); } catch (const std::exception &) {} }
+        }
+        // lookups by id through a long-lived container handle: what it held earlier and holds no more must not be found, what it holds must be
+        if (k.kind == 0 || k.kind == 6 || k.kind == 7) {
+            static const char *block_lists[] = {"data_arrays", "data_frames", "tags", "multi_tags", "groups", "sources", nullptr};
+            static const char *source_lists[] = {"sources", nullptr};
+            static const char *section_lists[] = {"properties", "sections", nullptr};
+            const char **lists = k.kind == 0 ? block_lists : k.kind == 6 ? source_lists : section_lists;
+            for (int li = 0; lists[li]; li++) {
+                std::string lk = lists[li];
+                const Node *l = f->second->find(lk);
+                if (!l || !l->val.empty()) continue;
+                std::map<std::string, std::string> now;      // id -> name
+                for (auto &c : l->kids) if (c.is_record()) now[c.field("id")] = c.field("name");
+                std::set<std::string> &seen = k.seen[lk];
+                std::set<std::string> probe = seen; for (auto &kv : now) probe.insert(kv.first);
+                for (auto &id : probe) {
+                    bool has = false; std::string got_id, got_name; bool threw = false;
+                    try {
+                        if (k.kind == 0) {
+                            if (lk == "data_arrays") { has = k.block.hasDataArray(id); if (has) { auto e = k.block.getDataArray(id); if (e) { got_id = e.id(); got_name = e.name(); } } }
+                            else if (lk == "data_frames") { has = k.block.hasDataFrame(id); if (has) { auto e = k.block.getDataFrame(id); if (e) { got_id = e.id(); got_name = e.name(); } } }
+                            else if (lk == "tags") { has = k.block.hasTag(id); if (has) { auto e = k.block.getTag(id); if (e) { got_id = e.id(); got_name = e.name(); } } }
+                            else if (lk == "multi_tags") { has = k.block.hasMultiTag(id); if (has) { auto e = k.block.getMultiTag(id); if (e) { got_id = e.id(); got_name = e.name(); } } }
+                            else if (lk == "groups") { has = k.block.hasGroup(id); if (has) { auto e = k.block.getGroup(id); if (e) { got_id = e.id(); got_name = e.name(); } } }
+                            else { has = k.block.hasSource(id); if (has) { auto e = k.block.getSource(id); if (e) { got_id = e.id(); got_name = e.name(); } } }
+                        } else if (k.kind == 6) { has = k.source.hasSource(id); if (has) { auto e = k.source.getSource(id); if (e) { got_id = e.id(); got_name = e.name(); } } }
+                        else if (lk == "properties") { has = k.section.hasProperty(id); if (has) { auto e = k.section.getProperty(id); if (e) { got_id = e.id(); got_name = e.name(); } } }
+                        else { has = k.section.hasSection(id); if (has) { auto e = k.section.getSection(id); if (e) { got_id = e.id(); got_name = e.name(); } } }
+                    } catch (const std::exception &) { threw = true; }
+                    cnt.inc("live_handles.member_lookups");
+                    auto cur = now.find(id);
+                    std::string bad;
+                    if (cur == now.end()) { if (has) bad = "still finds the id " + id + " of a former member of its " + lk + " (now: '" + got_name + "', id " + got_id + ")"; }
+                    else if (threw) bad = "throws when asked for member " + id + " of its " + lk;
+                    else if (!has) bad = "does not find member " + id + " ('" + cur->second + "') of its " + lk;
+                    else if (got_id != id || got_name != cur->second) bad = "returns '" + got_name + "' (" + got_id + ") when asked for member " + id + " ('" + cur->second + "') of its " + lk;
+                    if (!bad.empty()) {
+                        std::string ac = arg_class; arg_class += ",live-kind=" + std::to_string(k.kind) + ",member-lookup";
+                        fail(lane_prop == "C03" ? "C03.agree-live" : "C02.live-handle", "a handle obtained earlier in this session (kind " + std::to_string(k.kind) + ", entity " + f->second->field("name") + ") " + bad);
+                        arg_class = ac; return;
+                    }
+                }
+                for (auto &kv : now) if (seen.size() < 24) seen.insert(kv.first);
+            }
+        }
     }
 }
 
@@ -499,6 +562,12 @@ static void after_op(World &w, const Op &op, int rc) {
         // replace-whole-list setters re-link every member in the order given: relative order of survivors is theirs to choose
         bool relinks = rc == 0 && (op.kind == OP_tag_setrefs || op.kind == OP_set_sources || op.kind == OP_group_set);     // a refused one must leave the order alone
         if (!relinks && !order_preserved(w.last, doc, where)) w.fail("C03.order", where);
+        if (!w.expect_unchanged.empty() && rc != 2) {
+            // a delete / remove call that was handed something the addressed container does not hold (an entity of another block, a section
+            // that is not a child, a property of another section ...): whatever it answers, nothing else may have been harmed
+            w.cnt.inc("delete.misdirected_checked");
+            if (!node_equal(w.last, doc, where)) w.fail(w.expect_unchanged, "a delete/remove call that designated an entity the addressed container does not hold (" + w.arg_class + ") changed the document at " + where);
+        }
         if (!w.del_victim.empty() && (rc == 1 || !w.del_result) && !node_equal(w.last, doc, where)) {
             // a delete that threw or reported "nothing removed" and changed the document all the same stopped half way: the victim is still
             // exposed somewhere or something else was harmed
@@ -567,6 +636,12 @@ static void after_op(World &w, const Op &op, int rc) {
 int World::exec(const Op &op) {
     del_victim.clear(); del_handles.clear(); del_result = false;
     prefer_live = ((op.sub >> 9) & 3) != 0;      // three out of four operations reuse a long-lived handle when there is one
+    {   // descriptor handles held next to a long-lived array handle are let go before anything is deleted: an open handle keeps an unlinked
+        // HDF5 object - and the hard links stored in it, such as an alias dimension's link to its array - alive (see the ghost handles of C04)
+        const char *nm = op_name(op.kind);
+        if (!strncmp(nm, "delete_", 7) || !strncmp(nm, "abuse_", 6) || op.kind == OP_dim_delete_all || op.kind == OP_mk_graph || op.kind == OP_mk_fitted || op.kind == OP_feat_delete || op.kind == OP_prop_delete || op.kind == OP_del_misdirected || op.kind == OP_replace_member)
+            for (auto &kv : live) kv.second.dims.clear();
+    }
     switch (op.kind) {
         case OP_flush: case OP_reopen: case OP_kill: case OP_drop: case OP_clock: case OP_flush_fault: case OP_use_stale: case OP_keep: case OP_second_view:
             return exec_session(op);
@@ -601,6 +676,7 @@ void World::run(const Plan &p, const std::string &d) {
     twin_safe = plan_is_twin(plan);
     blind = twin_safe && g_blind_twin;
     h5knob_set(s.cache_mode, s.sieve_mode);
+    h5knob_mdc(s.mdc_mode);
     { unsigned t = (unsigned) ((s.entropy >> 32) % 8); h5knob_tbuf(t == 0 ? 0 : (t < 5 ? 1 : 2)); }     // one run in eight keeps the default
     disk_set_perturb(s.entropy ^ 0x5151, s.perturb_pm);
     path = dir + "/f0.nix";
@@ -611,7 +687,7 @@ void World::run(const Plan &p, const std::string &d) {
     for (size_t i = 0; i < plan.ops.size() && !failed() && !stop; i++) {
         cur = (int) i;
         const Op &op = plan.ops[i];
-        arg_class.clear(); must_succeed.clear();
+        arg_class.clear(); must_succeed.clear(); expect_unchanged.clear();
         evh.str(op_to_line(op));
         progress((int) i, op.kind);
         uint64_t fileless = is_open ? 0 : 1;
